@@ -21,6 +21,7 @@ import (
 	"github.com/AdguardTeam/AdGuardDNS/internal/filter/internal"
 	"github.com/AdguardTeam/AdGuardDNS/internal/filter/internal/filtertest"
 	"github.com/AdguardTeam/golibs/logutil/slogutil"
+	"github.com/c2h5oh/datasize"
 	"github.com/miekg/dns"
 	"golang.org/x/net/publicsuffix"
 	"pgregory.net/rapid"
@@ -127,7 +128,9 @@ func TestVerifC11Filter(t *testing.T) {
 		"nomatch-prefix-twin-listed", "unfilterable-qtype-listed", "refresh-removed", "refresh-added", "relookup-same-version",
 		"sfx-private", "sfx-unlisted", "sfx-icann4", "near-miss-host", "near-miss-qtype", "near-miss-qtype-filterability",
 		"root-name", "match-private-suffix-itself", "match-unlisted-tld", "sfx-nested-private",
-		"host-under-nested-private-suffix", "listed-outer-private-zone")
+		"host-under-nested-private-suffix", "listed-outer-private-zone", "list-has-line-of-255-or-more",
+		"list-file-larger-than-max-size", "list-file-size-equal-max", "list-file-size-max-plus-1", "list-file-size-max-minus-1",
+		"list-from-cache-file", "list-from-file-url")
 	st.Finish(t)
 
 	if p := vc11SelfCheck(); p != "" {
@@ -157,7 +160,21 @@ func TestVerifC11Filter(t *testing.T) {
 		}).Draw(t, "id")
 		repl := rapid.SampledFrom([]string{"repl.example", "192.0.2.7", "2001:db8::7"}).Draw(t, "repl")
 
+		// The list is read from a file either way: through a file URL, or as
+		// the cache file of an HTTP URL that is never contacted (the cache file
+		// is always fresh; nothing listens on the port).  The size limit is
+		// small so that list files around and above it are frequent.
+		maxSize := rapid.SampledFrom([]int{256, 700, 3000, 640_000}).Draw(t, "maxSize")
+		viaCache := rapid.IntRange(0, 2).Draw(t, "viaCache") == 0
+		listURL := &url.URL{Scheme: "file", Path: listPath}
+		cachePath := filepath.Join(dir, "unused-cache")
+		if viaCache {
+			listURL = &url.URL{Scheme: "http", Host: "127.0.0.1:1", Path: "/list.txt"}
+			cachePath = listPath
+		}
+
 		list := vc11GenList(t, "v0", names)
+		sizeClasses := vc11PadList(t, "v0", &list, maxSize, viaCache)
 		if err := os.WriteFile(listPath, []byte(list.text), 0o644); err != nil {
 			t.Fatalf("harness: %v", err)
 		}
@@ -172,29 +189,50 @@ func TestVerifC11Filter(t *testing.T) {
 			Cloner:          agdtest.NewCloner(),
 			CacheManager:    agdcache.EmptyManager{},
 			Hashes:          strg,
-			URL:             &url.URL{Scheme: "file", Path: listPath},
-			ErrColl:         agdtest.NewErrorCollector(),
+			URL:             listURL,
+			ErrColl:         &agdtest.ErrorCollector{OnCollect: func(_ context.Context, _ error) {}},
 			Metrics:         internal.EmptyMetrics{},
 			ID:              id,
-			CachePath:       filepath.Join(dir, "unused-cache"),
+			CachePath:       cachePath,
 			ReplacementHost: repl,
 			Staleness:       filtertest.Staleness,
 			CacheTTL:        filtertest.CacheTTL,
 			CacheCount:      rapid.SampledFrom([]int{1, 4, 100}).Draw(t, "cacheCount"),
-			MaxSize:         filtertest.FilterMaxSize,
+			MaxSize:         datasize.ByteSize(maxSize),
+			RefreshTimeout:  filtertest.Timeout,
 		})
 		if err != nil {
 			t.Fatalf("NewFilter: %v", err)
 		}
 
-		if err = f.RefreshInitial(ctx); err != nil {
-			t.Fatalf("RefreshInitial: %v", err)
-		}
-
 		version := 0
 		var history []string
-		history = append(history, fmt.Sprintf("v0 list=%q", list.text))
-		st.Class(list.forms...)
+		history = append(history, fmt.Sprintf("v0 max_size=%d via_cache_file=%t size=%d list=%s",
+			maxSize, viaCache, len(list.text), vc11ShowText(list.text)))
+
+		// The oracle: the list that a refresh reported as applied is matched
+		// completely and soundly; a refresh that failed leaves the previous
+		// one.  A failure is only accepted for a file above the size limit or
+		// with an overlong line; the unchanged code loads both.
+		mayRefuse := func(l vc11List) bool { return len(l.text) > maxSize || vc11HasLongLine(l.text) }
+		if err = f.RefreshInitial(ctx); err != nil {
+			if !mayRefuse(list) {
+				t.Fatalf("RefreshInitial: %v\nhistory:\n%s", err, strings.Join(history, "\n"))
+			}
+
+			history = append(history, fmt.Sprintf("initial refresh failed: %v", err))
+			st.Class("refresh-refused")
+			list = vc11List{listed: map[string]bool{}}
+		} else {
+			st.Class(list.forms...)
+			st.Class(sizeClasses...)
+		}
+
+		if viaCache {
+			st.Class("list-from-cache-file")
+		} else {
+			st.Class("list-from-file-url")
+		}
 
 		// prevMatched is the expected-must state of the lookups made in
 		// earlier versions; seen are the lookups made in this version.
@@ -216,17 +254,26 @@ func TestVerifC11Filter(t *testing.T) {
 			if kind <= 1 && op > 0 {
 				// Refresh with a new version.
 				version++
-				list = vc11GenList(t, fmt.Sprintf("v%d", version), names)
-				if err = os.WriteFile(listPath, []byte(list.text), 0o644); err != nil {
+				next := vc11GenList(t, fmt.Sprintf("v%d", version), names)
+				sizeClasses = vc11PadList(t, fmt.Sprintf("v%d", version), &next, maxSize, viaCache)
+				if err = os.WriteFile(listPath, []byte(next.text), 0o644); err != nil {
 					t.Fatalf("harness: %v", err)
 				}
 
+				history = append(history, fmt.Sprintf("refresh v%d size=%d list=%s", version, len(next.text), vc11ShowText(next.text)))
 				if err = f.Refresh(ctx); err != nil {
-					t.Fatalf("Refresh: %v\nhistory:\n%s", err, strings.Join(history, "\n"))
+					if !mayRefuse(next) {
+						t.Fatalf("Refresh: %v\nhistory:\n%s", err, strings.Join(history, "\n"))
+					}
+
+					history = append(history, fmt.Sprintf("refresh failed, previous list stays: %v", err))
+					st.Class("refresh-refused")
+				} else {
+					list = next
+					st.Class(list.forms...)
+					st.Class(sizeClasses...)
 				}
 
-				history = append(history, fmt.Sprintf("refresh v%d list=%q", version, list.text))
-				st.Class(list.forms...)
 				seen = map[vc11Lookup]bool{}
 
 				continue
@@ -466,6 +513,76 @@ func TestVerifC11Filter(t *testing.T) {
 			}
 		}
 	})
+}
+
+// vc11PadList brings the text of l to a size chosen relative to maxSize
+// (one below, equal, one above, several times) by putting blank and comment
+// lines in front of it, if the text is not larger than that already, and
+// returns the histogram labels of the result.  If nonEmpty is set, an empty
+// text becomes one blank line.
+func vc11PadList(t *rapid.T, label string, l *vc11List, maxSize int, nonEmpty bool) (classes []string) {
+	if nonEmpty && l.text == "" {
+		// An empty cache file means "no cache file" to the refresher.
+		l.text = "\n"
+	}
+
+	target := 0
+	switch rapid.SampledFrom([]string{"as-is", "as-is", "max-1", "max", "max+1", "2max+3", "5max"}).Draw(t, label+".size") {
+	case "max-1":
+		target = maxSize - 1
+	case "max":
+		target = maxSize
+	case "max+1":
+		target = maxSize + 1
+	case "2max+3":
+		target = 2*maxSize + 3
+	case "5max":
+		target = 5 * maxSize
+	}
+
+	// Keep the files of the biggest limit small.
+	if target > 20_000 {
+		target = 0
+	}
+
+	if pad := target - len(l.text); target > 0 && pad > 0 {
+		b := &strings.Builder{}
+		for pad > 0 {
+			switch c := min(pad, 100); {
+			case pad == 1:
+				b.WriteString("\n")
+				pad = 0
+			default:
+				b.WriteString("#" + strings.Repeat("p", c-2) + "\n")
+				pad -= c
+			}
+		}
+
+		l.text = b.String() + l.text
+	}
+
+	switch size := len(l.text); {
+	case size == maxSize-1:
+		classes = append(classes, "list-file-size-max-minus-1")
+	case size == maxSize:
+		classes = append(classes, "list-file-size-equal-max")
+	case size == maxSize+1:
+		classes = append(classes, "list-file-size-max-plus-1")
+	}
+
+	if len(l.text) > maxSize {
+		// Only counts if a listed name lies beyond the limit.
+		for name := range l.listed {
+			if rest := l.text[maxSize:]; strings.Contains(rest, "\n"+name+"\n") || strings.Contains(rest, "\n"+name+"\r\n") ||
+				strings.HasSuffix(rest, "\n"+name) {
+				classes = append(classes, "list-file-larger-than-max-size")
+
+				break
+			}
+		}
+	}
+
+	return classes
 }
 
 // vc11IsKnownPrivateTLD reports whether the match of n is the recorded
